@@ -10,7 +10,7 @@ SHARDS = {"quick": 8, "thorough": 16}
 RULE = (
     "Whole simulation runs with orders in every state at the removal (pending, resting, partly filled, partly "
     "cancelled, lapsed, complete, cancel/replace/update in flight, LOC/MOC orders), adjustment factors from {0, 1.0, "
-    "2.49, 2.5, 2.51, 10, 40, 99, runner's own; None only on non-BSP markets}, removals before/after in-play, several "
+    "2.49, 2.5, 2.51, 10, 40, 99, runner's own, None (no factor published)}, removals before/after in-play, several "
     "removals per market, WIN/PLACE/OTHER_PLACE/EACH_WAY/MATCH_ODDS, and the same selection id + factor removed in "
     "1-3 markets processed by one framework (sequential and event-grouped), default and pre-play-only (inplay=False) listeners. Fragment prices are tracked fragment by "
     "fragment over the whole run. Non-trivial: a removal with >= 1 matched order on another runner or >= 1 order "
@@ -33,6 +33,11 @@ def scenario(draw, tier="quick"):
     afs = [draw(st.sampled_from([0.5, 2.4, 2.5, 10.0, 25.0, 40.0])) for _ in range(nr)]
     shared_removal = {"r": draw(st.integers(0, nr - 1)),
                       "af": draw(st.sampled_from([0, 1.0, 2.49, 2.5, 2.51, 10, 40, 99, None]))}  # None: market without reduction factors
+    # directed: a runner carrying market-on-close orders is removed without a factor, a second runner is removed
+    # later with one (every order after the first in the blotter must still be voided / reduced / scaled)
+    nofactor_then_factor = bsp and draw(st.integers(0, 5)) == 0
+    if nofactor_then_factor:
+        shared_removal["af"] = None
     markets, scripts = [], []
     for mi in range(nm):
         spec = world.default_market(mi, nr, event=0 if grouped else mi)
@@ -53,7 +58,17 @@ def scenario(draw, tier="quick"):
         pos = draw(st.integers(1, max(1, body)))
         steps.insert(pos, {"dt": draw(st.sampled_from([50, 1000])), "k": "remove", **shared_removal})
         states.insert(pos + 1, dict(states[pos], removed=set(states[pos]["removed"]) | {shared_removal["r"]}))
-        if draw(st.integers(0, 3)) == 0:
+        if nofactor_then_factor:
+            r2 = (shared_removal["r"] + 1) % nr
+            pos2 = draw(st.integers(min(pos + 1, len(steps) - 2), max(pos + 1, len(steps) - 2)))
+            steps.insert(pos2, {"dt": 1000, "k": "remove", "r": r2, "af": draw(st.sampled_from([2.0, 5.0, 30.0]))})
+            states.insert(pos2 + 1, dict(states[pos2]))
+            scripts.append({"m": mi, "at": 0, "ops": [
+                {"op": "place", "r": shared_removal["r"], "side": "LAY", "type": "MOC", "tick": 50, "liability": draw(st.sampled_from([1.0, 10.0]))},
+                {"op": "place", "r": (shared_removal["r"] + 2) % nr, "side": draw(st.sampled_from(["LAY", "BACK"])),
+                 "type": draw(st.sampled_from(["MOC", "LOC"])), "liability": 5.0, "tick": draw(st.integers(20, 120))},
+                {"op": "place", "r": r2, "side": "BACK", "type": "LIMIT", "tick": draw(st.integers(20, 120)), "size": 2.0, "pers": "PERSIST"}]})
+        elif draw(st.integers(0, 3)) == 0:
             r2 = (shared_removal["r"] + 1) % nr
             pos2 = draw(st.integers(1, max(1, len(steps) - 2)))
             steps.insert(pos2, {"dt": 1000, "k": "remove", "r": r2, "af": draw(st.sampled_from([2.0, 5.0, 30.0]))})
@@ -181,8 +196,8 @@ def check(sc):
                         if is_moc_lay and exp_f:
                             own_af = ups[u].runner_af[sel_ids.index(o["sel"])]
                             for _, f in exp_f:
-                                if f is None:
-                                    continue  # removal without a reduction factor: nothing to scale
+                                if f is None or own_af is None:
+                                    continue  # removal / order's runner without a reduction factor: nothing to scale
                                 if mtype == "WIN":
                                     exp = exp * (1 - f / (100 - own_af))
                                 elif mtype in ("PLACE", "OTHER_PLACE"):
